@@ -78,6 +78,12 @@ def run_witnesses(rep, prop):
 def validate(traces, rep, prop, *, step=False):
     files = common.write_shards(traces, common.NCPU, "sched")
     mon = common.run_monitor("TraceSched", "TraceSched.cfg", files)
+    # the transcribed policies (what TLC model-checks) stepped along the same runs: exact decision match, differences are DRIFT only
+    drift = common.run_monitor("TraceDrift", "TraceDrift.cfg", files)
+    rep.extra["policy_transcription"] = dict(drift.counters, rounds_that_differ=len(drift.notes))
+    if drift.notes:
+        print(f"DRIFT: the transcribed policy of Sched.tla decides differently from the real one in {len(drift.notes)} round(s) "
+              f"(no property fixes exact decisions; the model needs updating), e.g. {json.dumps(drift.notes[0])[:300]}")
     by_tid = {tr[0]["tid"]: tr for tr in traces}
     owners = Counter()
     allv = list(mon.viols)
